@@ -169,6 +169,9 @@ func (fw *FileWriter) WriteEntry(entry Entry) error {
 	if fw.closed {
 		return ErrFileClosed
 	}
+	if err := entry.Validate(); err != nil {
+		return err
+	}
 
 	shouldFlush := fw.buffer.Add(entry)
 	if shouldFlush {
@@ -188,6 +191,9 @@ func (fw *FileWriter) WriteEntries(entries []Entry) error {
 	}
 
 	for _, entry := range entries {
+		if err := entry.Validate(); err != nil {
+			return err
+		}
 		shouldFlush := fw.buffer.Add(entry)
 		if shouldFlush {
 			if err := fw.flushLocked(); err != nil {
